@@ -133,3 +133,10 @@ Print Assumptions C06_plan_mod8.
 Print Assumptions C06_exec_plan_is_memcpy.
 Print Assumptions C06_atomic_ref_aligned.
 Print Assumptions C06_no_mixture.
+
+(* the requested memory ordering (suite C06order): the model of Bytes::store / Bytes::load hands the
+   caller's ordering unchanged to exactly one atomic access; the checker demands exactly that of the
+   real library, which is observed through third-party AtomicInteger implementations *)
+Theorem C06order_model_ok : forall os ol, ok_C06order os ol (run_C06order os ol) = true.
+Proof. intros os ol. unfold ok_C06order, run_C06order. rewrite !N.eqb_refl. reflexivity. Qed.
+Print Assumptions C06order_model_ok.
